@@ -384,6 +384,28 @@ class C16(Prop):
     def nontrivial(self, case):
         return False        # schedules are recorded one by one inside run_schedule
 
+    def known_repros(self):
+        def k4(ctx):
+            """two pages S -> T under one webentity; a path1 rule installed on the domain creates one webentity over S's
+            directory and then one over T's; a network query advanced between the two creations reports a link between S's OLD
+            webentity and T's NEW one, a pair that existed at no moment"""
+            S = b"s:http|h:com|h:a|p:x|p:s|"
+            T = b"s:http|h:com|h:a|p:y|p:t|"
+            case = Case(self, ctx, Config(backend="memory", default_rule="domain"), None)
+            try:
+                case.idx.apply(("links", [(S, T)]))
+                w1 = case.t.retrieve_webentity(S)
+                reqs = [("rule", b"s:http|h:com|h:a|", "path1"), ("q-network", True, True)]
+                run = sched.Run(case.t, reqs, [0, 0, 1], default="first")
+                run.run()
+                g = numeric_graph({a: dict(d) for a, d in run.results[1].items()})
+                w2, w3 = case.t.retrieve_webentity(S), case.t.retrieve_webentity(T)
+                # moments: (w1,w1) -> (w2,w1) -> (w2,w3); the answer pairs w1 with w3
+                return w1 in g and w3 in g[w1] and w3 != w1 and w2 != w1
+            finally:
+                case.abort()
+        return {"K4": k4}
+
     # -- exhaustive enumeration of all interleavings of two requests ---------------------------------------------
     def extra_checks(self, ctx, tier, seed, shard, nshards):
         n_scen = 2 if tier == "quick" else 14
